@@ -16,6 +16,7 @@ import (
 	"path/filepath"
 	"runtime"
 	"strconv"
+	"strings"
 	"sync"
 	"syscall"
 	"sync/atomic"
@@ -252,10 +253,12 @@ func main() {
 		return
 	}
 	vlib.Main("C06", "exploration", 10*time.Minute, func(r *vlib.Run) {
-		r.Rule("rounds of P processes x G goroutines released together, each doing N acquisitions on 2-3 lock paths (regular files; every other round also one private character device or FIFO, whose truncation by Create/Write fails and is tolerated) through a random entry point (OpenFile O_RDONLY/O_WRONLY/O_RDWR, Open, Create, Edit, Mutex.Lock, inside Transform's function, inside the reader handed to Write), dwelling 0-300us inside, with seeded delays at the lockedfile.open/close hooks. Evaluations = acquisitions; distinct non-trivial = acquisitions that found a conflicting holder inside when they were invoked (had to wait), plus rounds.")
+		r.Rule("rounds of P processes x G goroutines released together, each doing N acquisitions on 2-3 lock paths (regular files; every other round also one private character device or FIFO, whose truncation by Create/Write fails and is tolerated) through a random entry point (OpenFile O_RDONLY/O_WRONLY/O_RDWR, Open, Create, Edit, Mutex.Lock, inside Transform's function, inside the reader handed to Write), dwelling 0-300us inside, with seeded delays at the lockedfile.open/close hooks; every third round the workers run under strace, which makes every other flock call of every thread fail with EINTR (an interrupted lock request must be reissued, never taken for granted). Evaluations = acquisitions; distinct non-trivial = acquisitions that found a conflicting holder inside when they were invoked (had to wait), plus rounds.")
 		r.Assume("flock semantics of the host kernel; the occupancy word is updated only between an acquiring call's return and the releasing call's invocation")
 		base := vlib.Scratch()
 		rounds := r.Pick(6, 28)
+		_, sterr := exec.LookPath("strace")
+		haveStrace := sterr == nil
 		rng := r.Rand("rounds")
 		racePrefix := filepath.Join(base, "race")
 		tot := result{Acq: map[string]int64{}, Hook: map[string]int64{}}
@@ -302,6 +305,12 @@ func main() {
 				r.Inconclusive(err.Error())
 				return
 			}
+			// every third round the workers run under strace with EINTR injected into flock
+			eintrRound := round%3 == 2 && haveStrace
+			var straceLogs []string
+			if eintrRound {
+				r.Count("rounds_with_EINTR_injected_into_flock", 1)
+			}
 			P := r.Pick(4, 8)
 			G := r.Pick(8, 16)
 			N := r.Pick(200, 1000)
@@ -311,6 +320,14 @@ func main() {
 				out := filepath.Join(dir, fmt.Sprintf("res%d.json", p))
 				outs = append(outs, out)
 				cmd := exec.Command(os.Args[0])
+				if eintrRound {
+					// every other flock call of every thread of this worker fails with EINTR (the
+					// system call is not executed): an interrupted request must be reissued, never
+					// taken for a granted lock
+					slog := filepath.Join(dir, fmt.Sprintf("strace%d.log", p))
+					straceLogs = append(straceLogs, slog)
+					cmd = exec.Command("strace", "-f", "-qq", "--seccomp-bpf", "-e", "trace=flock", "-e", "inject=flock:error=EINTR:when=1+2", "-o", slog, os.Args[0])
+				}
 				cmd.Env = append(os.Environ(), "C06_WORKER=1", "C06_DIR="+dir, "C06_OUT="+out,
 					fmt.Sprintf("C06_SEED=%d", r.SubSeed(fmt.Sprintf("w-%d-%d", round, p))%1_000_000),
 					fmt.Sprintf("C06_G=%d", G), fmt.Sprintf("C06_N=%d", N), fmt.Sprintf("C06_PATHS=%d", NP), fmt.Sprintf("C06_NONREG=%d", nonreg), "C06_NONREG_KIND="+nonregKind, vlib.RaceEnv(racePrefix))
@@ -355,6 +372,11 @@ func main() {
 					if seenV[v["kind"]] <= 3 {
 						r.Violation(fmt.Sprintf("%s round=%d seed=%d n=%d", v["kind"], round, r.Seed, seenV[v["kind"]]), v["kind"]+": "+v["detail"], ccase{v["kind"], round, v["detail"]})
 					}
+				}
+			}
+			for _, sl := range straceLogs {
+				if b, err := os.ReadFile(sl); err == nil {
+					r.Count("flock_calls_failed_with_injected_EINTR", int64(strings.Count(string(b), "(INJECTED)")))
 				}
 			}
 			// quiescence: all words must be back to zero
